@@ -29,7 +29,7 @@ ASSUMPTIONS = ["reference laws: norm, uniform, gamma(z, Mn/z) with z=Mn/(Mw-Mn),
                "statistical sub-oracle: exact binomial per bin, alpha=1e-10 Bonferroni over bins and cases, rejection must repeat with an "
                "independent seed and twice the sample"]
 
-SIZES = {"quick": {"cases": 96, "draws": 1500, "quantiles": 200}, "thorough": {"cases": 1600, "draws": 12000, "quantiles": 2000}}
+SIZES = {"quick": {"cases": 96, "draws": 1500, "quantiles": 200}, "thorough": {"cases": 480, "draws": 8000, "quantiles": 2000}}
 ALPHA = 1e-10
 UNKNOWN = ["normal(100, 10)", "gaus(100, 10)", "gaussian(100, 10)", "gauss2(100, 10)", "uniformly(10, 20)", "poissonian(5)",
            "schulz_zimmer(1500, 1000)", "log_normal10(1000, 1.2)", "flory_schulz_zimm(0.1)", "weibull(1, 2)", "GAUSS(100, 10)",
